@@ -68,7 +68,7 @@ func cmdFunc(args []string) {
 	var frs []*FuncResult
 	for _, n := range names {
 		ct := p.CS.Funcs[n]
-		if ct != nil && (ct.Kind == "extern" || ct.Kind == "iface" || ct.Kind == "callback" || ct.Trusted || ct.Inline) {
+		if ct != nil && (ct.Kind == "extern" || ct.Kind == "iface" || ct.Kind == "callback" || (ct.Trusted && !ct.CheckCalls) || ct.Inline) {
 			continue
 		}
 		frs = append(frs, p.verifyFuncViews(n)...)
